@@ -12,6 +12,9 @@ import (
 	"fmt"
 	"math"
 	"os"
+	"sort"
+	"sync"
+	"sync/atomic"
 )
 
 // S is the fixed-point scale of logged reals (distances, squared distances,
@@ -147,6 +150,46 @@ type batchLine struct {
 	Nana  []int       `json:"nana"`
 	Mfail []int       `json:"mfail"`
 	B     interface{} `json:"b"`
+	mu    sync.Mutex
+}
+
+// Par > 1: the queries of a batch are issued from Par goroutines at the same
+// time on the one tree of the case (read-only queries; the list ray query
+// ElementsIntersectingRay fills a buffer owned by the tree, by design one
+// caller at a time, and is serialised).
+var Par = 1
+
+// forEach runs f(0..n-1), from Par goroutines when Par > 1.
+func forEach(n int, f func(i int)) {
+	if Par <= 1 {
+		for i := 0; i < n; i++ {
+			f(i)
+		}
+		return
+	}
+	var wg sync.WaitGroup
+	next := int64(-1)
+	for g := 0; g < Par; g++ {
+		wg.Add(1)
+		go func() {
+			defer wg.Done()
+			for {
+				i := int(atomic.AddInt64(&next, 1))
+				if i >= n {
+					return
+				}
+				f(i)
+			}
+		}()
+	}
+	wg.Wait()
+}
+
+func (l *batchLine) finish() {
+	sort.Ints(l.Fail)
+	sort.Ints(l.Nan)
+	sort.Ints(l.Nana)
+	sort.Ints(l.Mfail)
 }
 
 type hitRes struct {
@@ -243,7 +286,8 @@ func readCases(in string, each func(c Case) error) error {
 }
 
 // Run executes every case of `in` and writes the trace to `out`.
-func Run(in, out string, seed int64) error {
+func Run(in, out string, seed int64, par int) error {
+	Par = par
 	fo, err := os.Create(out)
 	if err != nil {
 		return err
